@@ -76,6 +76,11 @@ type ProcResult struct {
 	OutcomeMix map[string]int    `json:"outcome_mix"`
 	Sites      map[string]int    `json:"sites"`
 	SiteFaults map[string]int    `json:"site_faults"`
+	// real-SQL mode accounting: runs in which the storage layer's data methods ran for real over the SQL
+	// interpreter, and how many of those were inconclusive because a statement was outside its grammar
+	RealSQLRuns       int    `json:"real_sql_runs"`
+	UnsupportedRuns   int    `json:"unsupported_sql_runs"`
+	UnsupportedSample string `json:"unsupported_sql_sample,omitempty"`
 }
 
 type ReportedV struct {
@@ -225,6 +230,25 @@ func profileFor(ps []Profile, run int) Profile {
 	return ps[int(RunSeed(0x70726f66, uint64(run))%uint64(len(ps)))]
 }
 
+// genScenario generates run `rs` of a profile. Whether the storage layer's data methods run for real over
+// the SQL interpreter or are served by the contract model is decided per run from the run seed alone (2 in 3
+// real), so that it needs no draw from the scenario stream; VERIF_SQL=real|model forces one mode.
+func genScenario(p Profile, rs uint64, tier string) (*Scenario, *ExploreCfg) {
+	sc, ex := p.Gen(NewRNG(rs).Derive(0), rs, tier)
+	sc.Knobs.RealSQL = RunSeed(0x73716c, rs)%3 != 0
+	switch os.Getenv("VERIF_SQL") {
+	case "real":
+		sc.Knobs.RealSQL = true
+	case "model":
+		sc.Knobs.RealSQL = false
+	}
+	if sc.Worker != nil {
+		// the replication world does not go through the ledger store's data methods
+		sc.Knobs.RealSQL = false
+	}
+	return sc, ex
+}
+
 func TestSim(t *testing.T) {
 	if *fReplay != "" {
 		replayFile(t)
@@ -247,9 +271,8 @@ func TestSim(t *testing.T) {
 	for n := 0; n < *fRuns && time.Since(start) < *fBudget; n++ {
 		run := *fFrom + n**fStride
 		rs := RunSeed(*fSeed, uint64(run))
-		rng := NewRNG(rs)
 		p := profileFor(ps, run)
-		sc, ex := p.Gen(rng.Derive(0), rs, *fTier)
+		sc, ex := genScenario(p, rs, *fTier)
 		if *fOut != "" {
 			// a panic in a goroutine of the system under test kills the process: leave a note saying
 			// which (deterministic) run was in progress, so that the driver can report it with a replay
@@ -257,6 +280,15 @@ func TestSim(t *testing.T) {
 		}
 		res := RunScenario(t, sc, nil, ex)
 		out.Runs++
+		if sc.Knobs.RealSQL {
+			out.RealSQLRuns++
+		}
+		if res.Unsupported != "" {
+			out.UnsupportedRuns++
+			if out.UnsupportedSample == "" {
+				out.UnsupportedSample = fmt.Sprintf("run %d: %s", run, res.Unsupported)
+			}
+		}
 		out.Profiles[p.Name]++
 		out.Steps += res.Stats.Steps
 		out.SimTimeMs += res.Stats.SimTime.Milliseconds()
@@ -444,7 +476,7 @@ func replayFile(t *testing.T) {
 		if json.Unmarshal(b, &m2) == nil && m2.Tier != "" {
 			tier = m2.Tier
 		}
-		sc, ex := p.Gen(NewRNG(rs).Derive(0), rs, tier)
+		sc, ex := genScenario(p, rs, tier)
 		res := RunScenario(t, sc, nil, ex)
 		for _, l := range res.Log {
 			fmt.Println(l)
